@@ -100,9 +100,12 @@ SumSizes(S) == IF S = {} THEN 0 ELSE LET a == CHOOSE x \in S : TRUE IN a[3] + Su
 \* C07 at the process level: chunk-data requests come in archive order and are maximal runs - a request never starts
 \* exactly where the previous one ended, and never at or before it
 Budget == IF "httpfault" \in DOMAIN sc THEN sc.httpfault.budget ELSE 0
+\* beyond the list (rule family HDR): a header given with --http-header travels with every request, header reads included
+HdrOK == ~("tok" \in DOMAIN Ev /\ "token" \in DOMAIN sc) \/ Ev.tok = sc.token
 HttpEv ==
   /\ Step("http")
-  /\ IF Ev.last < sc.hdr THEN NoFlag /\ UNCHANGED <<fetched, lastreq, lastcut, ncuts>>
+  /\ IF ~HdrOK THEN FlagSoft("HDR: a request went out without the header given on the command line") /\ UNCHANGED <<fetched, lastreq, lastcut, ncuts>>
+     ELSE IF Ev.last < sc.hdr THEN NoFlag /\ UNCHANGED <<fetched, lastreq, lastcut, ncuts>>
      ELSE IF lastcut >= 0 THEN
           \* C08 at the process level: the previous transfer was cut after lastcut bytes; the retry resumes exactly there, within the budget
           /\ lastreq' = <<Ev.first, Ev.last>> /\ lastcut' = Ev.cut /\ ncuts' = ncuts + (IF Ev.cut >= 0 THEN 1 ELSE 0) /\ UNCHANGED fetched
